@@ -593,3 +593,25 @@ class Absorbed(tuple):
         o = super().__new__(cls, t)
         o.expr = expr
         return o
+
+
+def expr_root(e, depth=0):
+    """the local an expression is a view of (through index/slicing/borrow adapters and casts), or None"""
+    from ..expr import call_arg_exprs
+    while e is not None and depth < 12:
+        depth += 1
+        if e.k == "local":
+            return e.a
+        if e.k == "cast":
+            e = e.a
+            continue
+        if e.k == "field" and e.b in ("0", "1") and e.a.k == "call" and "split_at" in e.a.a.name:
+            e = call_arg_exprs(e.a.a)[0]
+            continue
+        if e.k == "call" and e.a.args and e.a.name in ("index", "index_mut", "as_slice", "as_mut_slice", "deref", "deref_mut", "as_ref",
+                                                        "as_mut", "borrow", "as_array", "as_mut_array", "unwrap_or", "unwrap", "expect",
+                                                        "try_from", "try_into", "from", "into"):
+            e = call_arg_exprs(e.a)[0]
+            continue
+        return None
+    return None
